@@ -591,7 +591,7 @@ pub fn mini(ctx: &Ctx, rep: &mut Report, prop: &str) {
 }
 
 pub fn run(ctx: &Ctx, rep: &mut Report) {
-    let instances = ctx.cases(32, 160);
+    let instances = ctx.cases(32, 96);
     let batches = if ctx.thorough { 60 } else { 12 };
     for case in ctx.case_range(instances) {
         rep.current_case = case;
